@@ -365,6 +365,9 @@ class TAPParser:
     state = _MAIN
     version = 12
 
+    def __init__(self) -> None:
+        self.seen_tests: T.Set[int] = set()
+
     def parse_test(self, ok: bool, num: int, name: str, directive: T.Optional[str], explanation: T.Optional[str]) -> \
             T.Generator[T.Union['TAPParser.Test', 'TAPParser.Error'], None, None]:
         name = name.strip()
@@ -433,6 +436,7 @@ class TAPParser:
                 self.num_tests += 1
                 self.last_test = self.last_test + 1 if m.group(2) is None else int(m.group(2))
                 self.highest_test = max(self.highest_test, self.last_test)
+                self.seen_tests.add(self.last_test)
                 if self.plan and self.last_test > self.plan.num_tests:
                     yield self.Error('test number exceeds maximum specified in test plan')
                 yield from self.parse_test(m.group(1) == 'ok', self.last_test,
@@ -495,11 +499,10 @@ class TAPParser:
                     yield self.Error(f'Too many tests run (expected {self.plan.num_tests}, got {self.num_tests})')
                 return
 
-            if self.highest_test != self.num_tests:
-                if self.highest_test < self.num_tests:
-                    yield self.Error(f'Duplicate test numbers (expected {self.num_tests}, got test numbered {self.highest_test}')
-                else:
-                    yield self.Error(f'Missing test numbers (expected {self.num_tests}, got test numbered {self.highest_test}')
+            if len(self.seen_tests) != self.num_tests:
+                yield self.Error(f'Duplicate test numbers ({self.num_tests} tests, {len(self.seen_tests)} distinct numbers)')
+            elif self.num_tests and (min(self.seen_tests) < 1 or self.highest_test > self.num_tests):
+                yield self.Error(f'Missing test numbers (expected {self.num_tests}, got test numbered {self.highest_test})')
 
 class TestLogger:
     def flush(self) -> None:
